@@ -7,9 +7,9 @@ import os
 from ..core import Ctx, HarnessError, Result
 from ..sched import mon_c04
 from ..sched.catalogue import A, AND, E, N, spec_from
-from ..sched.mon_c04 import RunaheadLimit, render_hours
+from ..sched.mon_c04 import (
+    EarlyOpProfile, EarlyProfile, RunaheadLimit, render_hours)
 from ..sched.monitors import GraphFaithful, PoolInvariants
-from ..sched.profile import OpProfile, Profile
 from ..sched.run import explore_all, replay_violation, result_from
 
 LEVEL = 'model_checking'
@@ -110,6 +110,11 @@ def _rows(tier: str):
             ('two-P2-oP2-f6-ra1-stop4', [('P2', [N(a)]),
                                          ('+P1/P2', [N(b)])], 6, 'P1', 4),
             ('solo-P1-f4-default', [('P1', solo)], 4, None, None),
+            ('future-two-P1-f4-ra0', [('P1', [E(A(a, 1), b), E(A(a, 2), 'c'),
+                                              N(a)])], 4, 'P0', None),
+            ('future-P2-oP2-f5-ra0', [('P2', [N(a)]),
+                                      ('+P1/P2', [E(A(a, 1), b)])], 5, 'P0',
+             None),
         ]
     return rows
 
@@ -192,14 +197,14 @@ def make_factory(spec):
 
     def factory():
         if kind == 'plain':
-            return Profile(
+            return EarlyProfile(
                 spec, monitors=[RunaheadLimit, GraphFaithful, PoolInvariants],
                 jump=())
         if kind == 'datetime':
-            return Profile(
+            return EarlyProfile(
                 spec, monitors=[RunaheadLimit, PoolInvariants], jump=())
         ops = spec['ops']
-        return OpProfile(
+        return EarlyOpProfile(
             spec, ops=lambda w: ops, op_budget=1,
             monitors=[lambda: RunaheadLimit(judge_missing=False),
                       PoolInvariants],
@@ -217,7 +222,7 @@ def run(ctx: Ctx) -> Result:
         max_states=ctx.pick(4000, 40000), max_seconds=ctx.pick(110, 1500))
     counts = mon_c04.read_counts(str(cdir))
     if not st.violations and not st.error:
-        need = ['releases', 'releases-at-limit',
+        need = ['releases', 'releases-at-start-up', 'releases-at-limit',
                 'releases-with-others-held-back',
                 'releases-with-future-offset', 'releases-with-stop-cap',
                 'terminals']
